@@ -243,12 +243,19 @@ def generate(repo):
              "add: the key is the result's sequence id", body[0])
         k = body[0].targets[0].id
         n = body[1]
-        need(isinstance(n, ast.If) and U(n.test) == f"{k} in self.data",
-             "add: test is `key in self.data`", n)
-        need(len(real_body(n)) == 1 and
-             U(real_body(n)[0]) == f"self.data[{k}].append({r})",
-             "add: present -> append", n)
+        need(isinstance(n, ast.If), "add: an if on the key's presence", n)
+        then = real_body(n)
         oe = [x for x in n.orelse if not isinstance(x, ast.Pass)]
+        # `if k in d: A else: B`  =  `if k not in d: B else: A`
+        if U(n.test) in (f"{k} not in self.data",
+                         f"not {k} in self.data"):
+            then, oe = oe, then
+        else:
+            need(U(n.test) == f"{k} in self.data",
+                 "add: test is `key in self.data` or its negation", n)
+        need(len(then) == 1 and
+             U(then[0]) == f"self.data[{k}].append({r})",
+             "add: present -> append", n)
         need(len(oe) == 1 and U(oe[0]) == f"self.data[{k}] = [{r}]",
              "add: absent -> new singleton list", n)
         return ("Definition x_seqres_add {A} (present : bool) (old : list A) "
